@@ -272,7 +272,33 @@ def ws_reader(facts, R):
         by_content = sum(1 for a in args if a.endswith("as Dispatch).handler")) == 1 and sum(1 for a in args if a.endswith("as Dispatch).notify")) == 1
         R.check(by_pos or by_content, "handler-once", path, "%s gets the routed handler and notify flag" % t["callee"]["name"],
                 "args: %s" % [a[-40:] for a in args], t.get("span"))
-    sends = [(i, t) for i, t in b.calls() if t["callee"]["name"] == "send" and render(s.op(t["args"][0])).endswith("outbound_tx")]
+    # a second off-reader spawner (a sibling of spawn_off_reader added later and spliced into the reader for analysis) is an off-reader
+    # dispatch site of its own: its blocks are entered only under Dispatch / OffReader, and its saturation reply and its spawn are the
+    # off-reader path's business (C16 judges every spawn site), not inline enqueues of the reader
+    import json as _json
+    from analysis.canon import KNOWN as _KNOWN
+    try:
+        _ref = set(_json.load(open(_KNOWN)).get("fns", {}))
+    except Exception:
+        _ref = set()
+    sib = {}
+    for x in sorted(b.live_blocks()):
+        src_ = b.blocks[x].get("inlined_from")
+        if src_ and src_ not in _ref and src_.startswith("websocket_server::"):
+            sib.setdefault(src_.split("::{closure")[0], set()).add(x)
+    sib = {k: v for k, v in sib.items() if any(b.term(x)["k"] == "call" and b.term(x)["callee"]["name"] in ("spawn_blocking", "spawn") for x in v)}
+    sib_blocks = set().union(*sib.values()) if sib else set()
+    for k, blks in sib.items():
+        heads_ = [x for x in blks if any(p_ not in blks for p_ in b.preds().get(x, []))]
+        okh = bool(heads_)
+        for h in heads_:
+            fs = facts_at(b, s, facts, h)
+            okh = okh and any(f["val"] == "Dispatch" and is_call(f["expr"], SR + "route") for f in fs) and any(f["val"] == "OffReader" and is_call(f["expr"], "execution") for f in fs)
+        R.check(okh, "handler-once", path, "%s dispatch only on Dispatch/OffReader" % k.rsplit("::", 1)[-1],
+                "a second off-reader spawner is reached outside route == Dispatch && execution() == OffReader", b.span, "guarded")
+        again = any(x in b.reachable(b.succs(x), avoid=reads) for x in blks if b.term(x)["k"] == "call" and b.term(x)["callee"]["name"] in ("spawn_blocking", "spawn"))
+        R.check(not again, "handler-once", path, "%s once per frame" % k.rsplit("::", 1)[-1], "the spawn can repeat without reading another frame", b.span)
+    sends = [(i, t) for i, t in b.calls() if t["callee"]["name"] == "send" and render(s.op(t["args"][0])).endswith("outbound_tx") and i not in sib_blocks]
     R.check(len(sends) == 2, "response-count", path, "two enqueue sites (reject, inline)", "found %d outbound sends" % len(sends), b.span)
     for i, t in sends:
         fs = facts_at(b, s, facts, i)
@@ -298,7 +324,7 @@ def ws_reader(facts, R):
             q = s.op(y["args"][1])
             okq = okq or (q[0] == "agg" and q[2] == "Borrowed" and render(q).endswith(".query}") and "from_slice_exact" in render(q))
         R.check(okq, "echo-rule", path, "response stamped with this request's query", "no stamp_response_query(response, Cow::Borrowed(view.query)) dominates the send", t.get("span"))
-    spawns = [t for _, t in b.calls() if t["callee"]["name"] in ("spawn", "spawn_blocking", "spawn_local")]
+    spawns = [t for i_, t in b.calls() if t["callee"]["name"] in ("spawn", "spawn_blocking", "spawn_local") and i_ not in sib_blocks]
     R.check(not spawns, "response-count", path, "inline responses are enqueued by the reader itself (arrival order)", "reader_task spawns work: %s" % [t["callee"]["path"] for t in spawns], b.span)
 
     # off-reader closure
